@@ -182,9 +182,18 @@ pub fn gen_work(ch: &mut Chooser, kind: Kind, tier: Tier) -> Work {
         2 | 3 => Backend::Jit,
         _ => Backend::Vm3,
     };
-    let (dims, max_vars) = match kind {
-        Kind::D2 => (if ch.flag("d2_solid") { 3 } else { 2 }, 2),
-        _ => (3, 2),
+    // up to 6 bound variables in a share of the workloads: the renderers and
+    // the mesher look variables up by identity through the shape wrappers
+    let max_vars = *ch.pick("max_vars", &[2usize, 2, 0, 6]);
+    let dims = match kind {
+        Kind::D2 => {
+            if ch.flag("d2_solid") {
+                3
+            } else {
+                2
+            }
+        }
+        _ => 3,
     };
     let mut sg = gen_csg(ch, dims, max_vars);
     // a share of the workloads renders a random expression instead of a CSG
